@@ -431,6 +431,7 @@ func (s *Sim) Go(name string, f func()) int {
 // Live returns the tasks that have not exited.
 func (s *Sim) Live() []TaskInfo {
 	s.Settle()
+	s.reapForeign()
 	var out []TaskInfo
 	for id, t := range s.alive {
 		ti := TaskInfo{ID: id, Name: t.name, Spawn: SiteName(t.spawn), Foreign: t.foreign}
@@ -442,6 +443,43 @@ func (s *Sim) Live() []TaskInfo {
 	}
 	sort.Slice(out, func(i, j int) bool { return out[i].ID < out[j].ID })
 	return out
+}
+
+// reapForeign forgets goroutines the simulator did not start (so they cannot
+// report their exit) that no longer exist, by looking at a full stack dump.
+func (s *Sim) reapForeign() {
+	any := false
+	for id, t := range s.alive {
+		if _, parked := s.parked[id]; t.foreign && !parked {
+			any = true
+		}
+	}
+	if !any {
+		return
+	}
+	present := map[int64]bool{}
+	buf := make([]byte, 1<<20)
+	for {
+		n := runtime.Stack(buf, true)
+		if n < len(buf) {
+			buf = buf[:n]
+			break
+		}
+		buf = make([]byte, 2*len(buf))
+	}
+	for _, g := range strings.Split(string(buf), "\n\n") {
+		var id int64
+		if _, err := fmt.Sscanf(g, "goroutine %d ", &id); err == nil {
+			present[id] = true
+		}
+	}
+	for id, t := range s.alive {
+		if _, parked := s.parked[id]; t.foreign && !parked && !present[t.goid] {
+			delete(s.alive, id)
+			s.tasks.Delete(t.goid)
+			s.exited++
+		}
+	}
 }
 
 // Alive reports whether the task with the given id has not exited.
